@@ -104,7 +104,7 @@ def parse_output(out):
 def classify(entry, src, rc, out, secs, timed_out):
     """-> dict(obligations: {label: discharged|failed|undecided}, detail...)"""
     labels = list(entry.get("labels") or labels_of(src)) + list(entry.get("labels_extra", []))
-    safety = f"K.{entry['harness']}.safety"
+    safety = f"K.{entry.get('id', entry['harness'])}.safety"
     p = parse_output(out)
     obl = {l: "discharged" for l in labels}
     obl[safety] = "discharged"
@@ -209,7 +209,7 @@ def run_all(scratch, entries, jobs=14, mem_budget_gb=None, log=print):
     results, todo = {}, []
     for e in entries:
         if e["harness"] not in srcs:
-            results[e["harness"]] = {"obligations": {f"K.{e['harness']}.safety": "undecided"}, "reason": "harness source not found (lost anchor)", "wall_s": 0, "cached": False}
+            results[e.get("id", e["harness"])] = {"obligations": {f"K.{e.get('id', e['harness'])}.safety": "undecided"}, "reason": "harness source not found (lost anchor)", "wall_s": 0, "cached": False}
             continue
         import hashlib, json
         src = srcs[e["harness"]]
@@ -217,7 +217,7 @@ def run_all(scratch, entries, jobs=14, mem_budget_gb=None, log=print):
         c = cache_get(key)
         if c is not None and not any(v == "undecided" for v in c["obligations"].values()):
             c["cached"] = True
-            results[e["harness"]] = c
+            results[e.get("id", e["harness"])] = c
         else:
             todo.append((e, key))
     if not todo:
@@ -238,7 +238,7 @@ def run_all(scratch, entries, jobs=14, mem_budget_gb=None, log=print):
                 cv.wait()
             budget["free"] -= need
         try:
-            tdir = os.path.join(scratch.dir, "t-" + e["harness"])
+            tdir = os.path.join(scratch.dir, "t-" + e.get("id", e["harness"]).replace("@", "_"))
             r = run_harness(crate, tdir, e, srcs[e["harness"]])
         finally:
             with cv:
@@ -248,8 +248,8 @@ def run_all(scratch, entries, jobs=14, mem_budget_gb=None, log=print):
         if not any(v == "undecided" for v in r["obligations"].values()):
             cache_put(key, r)
         st = "ok" if all(v == "discharged" for v in r["obligations"].values()) else ("UNDECIDED " + r.get("reason", "") if any(v == "undecided" for v in r["obligations"].values()) else "FAILED " + r.get("reason", "")[:200])
-        log(f"  [kani] {e['harness']:<40} {r['wall_s']:>7.1f}s {str(r.get('max_rss_gb')) + 'GB':>8}  {st}")
-        return e["harness"], r
+        log(f"  [kani] {e.get('id', e['harness']):<40} {r['wall_s']:>7.1f}s {str(r.get('max_rss_gb')) + 'GB':>8}  {st}")
+        return e.get("id", e["harness"]), r
 
     todo.sort(key=lambda t: -t[0].get("timeout", 300))
     with ThreadPoolExecutor(jobs) as ex:
